@@ -10,7 +10,7 @@ CONSTANTS
   LockAmts = {0, 1, 2, 3}
   LockSet <- MCLocks
   MaxHi = 0
-  U64Lim = 2000000
+  U64Lim = 200000000
   MaxEntry = 2
   InitAllowed = {d1}
 INIT InitFixed
